@@ -198,12 +198,14 @@ type WriteOptions struct {
 	EnableDataCRCs    bool     `json:"enable_data_crcs"`
 }
 
-func kvMap(in []wl.KV) map[string]string {
-	m := map[string]string{}
+// kvPairs keeps the insertion order: Python's writer serialises a dict in insertion order, so the
+// order in which the map is built is part of the case (a Go map marshals to JSON with sorted keys).
+func kvPairs(in []wl.KV) [][2]string {
+	out := make([][2]string, 0, len(in))
 	for _, kv := range in {
-		m[kv.K] = kv.V
+		out = append(out, [2]string{kv.K, kv.V})
 	}
-	return m
+	return out
 }
 
 // Write has Python's Writer produce a file from a workload (ids as Python assigns them: 1, 2, ...).
@@ -214,13 +216,13 @@ func (w *Worker) Write(path string, wk *wl.Workload, o WriteOptions) error {
 		case op.S != nil:
 			ops = append(ops, map[string]any{"k": "schema", "name": op.S.Name, "encoding": op.S.Encoding, "data": hex.EncodeToString(op.S.Data)})
 		case op.C != nil:
-			ops = append(ops, map[string]any{"k": "channel", "topic": op.C.Topic, "message_encoding": op.C.MessageEncoding, "schema_id": op.C.SchemaID, "metadata": kvMap(op.C.Metadata)})
+			ops = append(ops, map[string]any{"k": "channel", "topic": op.C.Topic, "message_encoding": op.C.MessageEncoding, "schema_id": op.C.SchemaID, "metadata": kvPairs(op.C.Metadata)})
 		case op.M != nil:
 			ops = append(ops, map[string]any{"k": "message", "channel_id": op.M.ChannelID, "log_time": op.M.LogTime, "publish_time": op.M.PublishTime, "sequence": op.M.Sequence, "data": hex.EncodeToString(op.M.Data)})
 		case op.A != nil:
 			ops = append(ops, map[string]any{"k": "attachment", "create_time": op.A.CreateTime, "log_time": op.A.LogTime, "name": op.A.Name, "media_type": op.A.MediaType, "data": hex.EncodeToString(op.A.Data)})
 		case op.D != nil:
-			ops = append(ops, map[string]any{"k": "metadata", "name": op.D.Name, "metadata": kvMap(op.D.Metadata)})
+			ops = append(ops, map[string]any{"k": "metadata", "name": op.D.Name, "metadata": kvPairs(op.D.Metadata)})
 		}
 	}
 	var resp struct {
